@@ -34,6 +34,7 @@ package influxql
 //@   modifies @ast
 //@   ensures s == nil ==> result == nil
 //@   ensures s != nil ==> notnil(result) && fresh(result) && result.typ__ == s.typ__
+//@   ensures istype(s, *SubQuery) ==> result.(*SubQuery).Statement != nil && fresh(result.(*SubQuery).Statement)
 //@   ensures istype(s, *Measurement) ==> result.(*Measurement).Name == s.(*Measurement).Name && result.(*Measurement).Database == s.(*Measurement).Database && result.(*Measurement).RetentionPolicy == s.(*Measurement).RetentionPolicy && result.(*Measurement).IsTarget == s.(*Measurement).IsTarget && result.(*Measurement).SystemIterator == s.(*Measurement).SystemIterator
 
 //@ func cloneSources
@@ -42,9 +43,9 @@ package influxql
 //@   astparams
 //@   modifies @ast
 //@   ensures len(result) == len(sources) && fresh(result)
-//@   ensures forall(i, 0, len(sources), notnil(result[i]) && fresh(result[i]) && result[i].typ__ == sources[i].typ__)
+//@   ensures forall(i, 0, len(sources), notnil(result[i]) && fresh(result[i]) && result[i].typ__ == sources[i].typ__ && (istype(result[i], *SubQuery) ==> result[i].(*SubQuery).Statement != nil))
 //@   loop 1 invariant -1 <= rangeindex && rangeindex < len(sources) && len(clone) == rangeindex + 1 && fresh(clone) && clone != nil
-//@   loop 1 invariant forall(i, 0, rangeindex + 1, notnil(clone[i]) && fresh(clone[i]) && clone[i].typ__ == sources[i].typ__)
+//@   loop 1 invariant forall(i, 0, rangeindex + 1, notnil(clone[i]) && fresh(clone[i]) && clone[i].typ__ == sources[i].typ__ && (istype(clone[i], *SubQuery) ==> clone[i].(*SubQuery).Statement != nil))
 
 //@ func (*SelectStatement).Clone
 //@   props C14 C13
@@ -62,7 +63,7 @@ package influxql
 //@   ensures len(result.SortFields) == len(s.SortFields) && fresh(result.SortFields)
 //@   ensures forall(i, 0, len(s.SortFields), result.SortFields[i] != nil && fresh(result.SortFields[i]) && result.SortFields[i].Name == s.SortFields[i].Name && result.SortFields[i].Ascending == s.SortFields[i].Ascending)
 //@   ensures len(result.Sources) == len(s.Sources) && fresh(result.Sources)
-//@   ensures forall(i, 0, len(s.Sources), notnil(result.Sources[i]) && fresh(result.Sources[i]) && result.Sources[i].typ__ == s.Sources[i].typ__)
+//@   ensures forall(i, 0, len(s.Sources), notnil(result.Sources[i]) && fresh(result.Sources[i]) && result.Sources[i].typ__ == s.Sources[i].typ__ && (istype(result.Sources[i], *SubQuery) ==> result.Sources[i].(*SubQuery).Statement != nil))
 //@   ensures (s.Condition == nil ==> result.Condition == nil) && (s.Condition != nil ==> notnil(result.Condition) && fresh(result.Condition) && result.Condition.typ__ == s.Condition.typ__)
 //@   ensures (s.Target == nil ==> result.Target == nil) && (s.Target != nil ==> result.Target != nil && fresh(result.Target) && result.Target.Measurement != nil && fresh(result.Target.Measurement))
 //@   ensures s.Target != nil ==> result.Target.Measurement.Database == s.Target.Measurement.Database && result.Target.Measurement.RetentionPolicy == s.Target.Measurement.RetentionPolicy && result.Target.Measurement.Name == s.Target.Measurement.Name
@@ -73,3 +74,7 @@ package influxql
 //@   loop 2 invariant forall(i, 0, rangeindex + 1, clone.Dimensions[i] != nil && fresh(clone.Dimensions[i]) && notnil(clone.Dimensions[i].Expr) && fresh(clone.Dimensions[i].Expr) && clone.Dimensions[i].Expr.typ__ == s.Dimensions[i].Expr.typ__)
 //@   loop 3 invariant -1 <= rangeindex && rangeindex < len(s.SortFields) && len(clone.SortFields) == rangeindex + 1 && fresh(clone.SortFields) && clone.SortFields != nil
 //@   loop 3 invariant forall(i, 0, rangeindex + 1, clone.SortFields[i] != nil && fresh(clone.SortFields[i]) && clone.SortFields[i].Name == s.SortFields[i].Name && clone.SortFields[i].Ascending == s.SortFields[i].Ascending)
+
+// C17: process-wide tables (Language, keywords, tokens, the replacers and the
+// compiled patterns, sentinel errors) are written by initialisers only.
+//@ packageinv noglobalwrites [C17]
